@@ -7,34 +7,40 @@ value equality. An immutable map, and any earlier snapshot of a map, is never al
 on maps derived from it.
 
 The theorems are about `Uniflow.MapHeap` (Model/MapHeap.lean), the transcription of pkg/types/map.go **after**
-the repair 8820110 (`mutableMap.Set` overwrote a key in the bucket array shared with the source map and left the
-old value in the result; witness corpus/C15/01-set-overwrite.ops).
+the repair "fix: mutableMap.Set overwrites the key in the copied bucket, not in the shared one" (the pinned `Set`
+overwrote a key in the bucket array shared with the source map and left the old value in the result; witness
+corpus/C15/01-set-overwrite.ops, and `C15.pinned_set_changes_snapshot` below).
 
-What is proved, for tables/heaps of any size and any keys (the key hash is whatever `Value.hash` says – nothing
-assumes it injective, so colliding keys are covered; the proofs rest on the C14 laws `cmp_antisymm`, `cmp_T3`,
+The model has two layers. The heap stores what Go stores: bucket arrays, Go maps `hash ↦ reference to a bucket array`
+(`ATable`), and mutableMap objects, all addressed; `immutableMap.mutable()` copies the Go map and shares the arrays.
+A by-value `Table` is the *content* of a Go map (`resolve`), and `tLook/tSet/tDelete/…` are the methods read at the
+content level. `apply_ok` (C15.no_panic) proves that every heap operation has exactly the content-level effect `cstep`.
+
+What is proved, for heaps of any size and any keys (the key hash is whatever `Value.hash` says – nothing assumes it
+injective, so colliding keys are covered; the proofs rest on the C14 laws `cmp_antisymm`, `cmp_T3`,
 `cmp_zero_iff_equal`, `equal_hash`):
 
-* `search_correct`   the binary search of Has/Get/Set/Delete is correct on a sorted bucket and never indexes out of range;
-* `buckets_sorted`   the table invariant (one entry per hash, buckets strictly sorted by Compare, non-empty, keys filed
-                     under their own hash) holds in every table of every heap reachable by any program of
-                     Set/Delete/Clear/Mutable/Immutable steps, and no step panics;
-* `map_refines_partial`  each of Get/Has, Set, Delete acts on the set of pairs a table holds exactly as the dictionary
-                     operation keyed by `Equal` (at most one pair per Equal-class; Set keeps the stored key), and
-                     Len / Keys-Values-Pairs / Range list exactly those pairs;
-* `snapshot_stable`  no program over handles derived from an immutable map changes any table that existed before
-                     (in particular the snapshot's own), whatever else the heap contains.
-
-`map_refines_full` (kept as a `def … : Prop`, not proved here): the same as one statement over whole operation
-histories against the association list `Uniflow.Dict`. It follows from `map_refines_partial` by induction over the
-history together with the membership characterisation of `Dict.set/delete` on duplicate-free lists; that last
-bookkeeping step is what is missing.
+* `search_correct`   the binary search of Has/Get/Set/Delete is correct on a sorted bucket, never out of range;
+* `buckets_sorted`   every Go map of every heap reachable by any program of Set/Delete/Clear/Mutable/Immutable steps on any
+                     handles resolves (no dangling bucket reference) to a content with one entry per hash and strictly
+                     sorted, non-empty buckets holding keys of that hash;
+* `no_panic`         every operation on a handle that has a content returns, keeps the invariant, and the returned map's
+                     content is `cstep` of the receiver's content;
+* `map_refines`      (`= map_refines_full`) whole Set/Delete/Clear histories from the empty map agree with the association
+                     list `Uniflow.Dict`: Get/Has, Len, Keys/Values/Pairs (as a permutation) and Range (as a permutation);
+* `handle_refines`   the same from **any** handle of **any** well-formed heap, for histories that also contain Mutable and
+                     Immutable, each operation acting on the map the previous one returned (an immutable map keeps its stored
+                     value when asked to store an Equal one);
+* `map_refines_partial`  the single-step dictionary laws on the set of pairs a content holds;
+* `snapshot_stable`  no program over handles derived from an immutable map changes what that map – or any other immutable
+                     handle that had a content before – reads, whatever else the heap contains;
+* `pinned_set_changes_snapshot`  with the pinned `Set` rule the same three-step program does change the snapshot.
 
 Reading of "derived from" (DESIGN.md §7 row 26): `mutableMap.Immutable()` returns a view of the *same* Go map, so
 writes through the source mutable map show through it. The source is not derived from the view; `snapshot_stable`
 quantifies over programs on handles derived from the snapshot, exactly as the statement does.
 -/
-import Uniflow.Proofs.MapHeap
-import Uniflow.Spec.Dict
+import Uniflow.Proofs.MapHeapStore
 
 open Uniflow.Value Uniflow.MapHeap
 
@@ -51,22 +57,27 @@ theorem C15.search_correct_nonvacuous :
 /-- The empty Go map satisfies the table invariant. -/
 theorem C15.inv_empty : TInv [] := tinv_nil
 
-/-- `buckets_sorted`: starting from any heap whose tables satisfy the invariant (e.g. the empty heap), after any program of
-map operations on any handles every table still satisfies it. -/
+/-- `buckets_sorted`: starting from any heap satisfying the invariant (e.g. the empty heap), after any program of map
+operations on any handles (dangling ones included) every Go map still resolves to a well-formed content. -/
 theorem C15.buckets_sorted (hp : Heap) (D : List Handle) (prog : List (Nat × Op)) (hi : HeapInv hp) :
     HeapInv (runDerived hp D prog).1 :=
   runDerived_inv prog hp D hi
 
-/-- No map operation panics (index out of range in the search) on a well-formed heap; it returns a map, or the handle was dangling. -/
-theorem C15.no_panic (hp : Heap) (hi : HeapInv hp) (h : Handle) (op : Op) :
-    (∃ hp' h' same, hp.apply h op = .ok hp' h' same ∧ HeapInv hp') ∨ hp.apply h op = .bad :=
-  apply_inv hi h op
+/-- No map operation panics on a handle that has a content in a well-formed heap: it returns a map, the heap stays well formed,
+the returned map contains `cstep` of what the receiver contained, and is of the kind the method promises. -/
+theorem C15.no_panic (hp : Heap) (hi : HeapInv hp) (h : Handle) (T : Table) (hc : hp.content h = some T) (op : Op) :
+    ∃ hp' h' same, hp.apply h op = .ok hp' h' same ∧ HeapInv hp' ∧
+      hp'.content h' = cstep h.isMut T op ∧ h'.isMut = kindAfter h.isMut op :=
+  apply_ok hi hc op
 
+/-- a heap with one Go map whose only bucket array holds two colliding keys satisfies the invariant -/
 theorem C15.buckets_sorted_nonvacuous :
-    HeapInv { tables := [[(hash (Val.int .native 1), [(Val.int .native 1, Val.str [120]), (Val.int .w64 1, Val.str [121])])]], objs := [0] } := by
+    HeapInv { buckets := [[(Val.int .native 1, Val.str [120]), (Val.int .w64 1, Val.str [121])]],
+              tables := [[(hash (Val.int .native 1), 0)]], objs := [0] } := by
   intro t ht
   simp only [List.mem_singleton] at ht
   subst ht
+  refine ⟨[(hash (Val.int .native 1), [(Val.int .native 1, Val.str [120]), (Val.int .w64 1, Val.str [121])])], rfl, ?_⟩
   refine ⟨by simp [Uniq], ?_⟩
   intro e he
   simp only [List.mem_singleton] at he
@@ -76,16 +87,18 @@ theorem C15.buckets_sorted_nonvacuous :
   simp only [List.mem_cons, List.not_mem_nil, or_false] at hp
   rcases hp with rfl | rfl <;> rfl
 
-/-- Dictionary laws, one step at a time, on the set of pairs `Holds t` of a well-formed table:
+/-- Dictionary laws, one step at a time, on the set of pairs `Holds t` of a well-formed content:
 (1) Get/Has: a miss means no held key is Equal to the key; a hit returns the value of the one held pair whose key is Equal;
-(2) Set: succeeds, keeps the invariant, removes the pairs whose key is Equal to the key and adds `(k0, val)` with `k0` Equal to the key;
+(2) Set: succeeds, keeps the invariant, removes the pairs whose key is Equal to the key and adds `(k0, val)`, where `k0` is the
+    stored Equal key if there is one and the new key otherwise;
 (3) Delete: succeeds, keeps the invariant, removes exactly the pairs whose key is Equal to the key;
-(4) Len counts, and Keys/Values/Pairs and Range list, exactly the held pairs (Range as a permutation: ascending hash order). -/
+(4) Len counts, and Keys/Values/Pairs and Range list, exactly the held pairs. -/
 theorem C15.map_refines_partial (t : Table) (hi : TInv t) (key val : Val) :
     ((tLook t key = .miss ∧ ∀ q, Holds t q → equal q.1 key = false) ∨
       (∃ k0 v, tLook t key = .hit v ∧ Holds t (k0, v) ∧ equal k0 key = true ∧
         ∀ q, Holds t q → q ≠ (k0, v) → equal q.1 key = false)) ∧
     (∃ t' k0, tSet t key val = some t' ∧ TInv t' ∧ equal k0 key = true ∧
+      ((k0 = key ∧ ∀ q, Holds t q → equal q.1 key = false) ∨ ∃ v0, Holds t (k0, v0)) ∧
       ∀ q, Holds t' q ↔ (Holds t q ∧ equal q.1 key = false) ∨ q = (k0, val)) ∧
     (∃ t', tDelete t key = some t' ∧ TInv t' ∧ ∀ q, Holds t' q ↔ Holds t q ∧ equal q.1 key = false) ∧
     (tLen t = (tPairs t).length ∧ (∀ q, q ∈ tPairs t ↔ Holds t q) ∧
@@ -98,51 +111,127 @@ theorem C15.map_refines_partial (t : Table) (hi : TInv t) (key val : Val) :
   · unfold tRange
     rw [← tLen_eq, tLen_perm (sortByHash_perm t)]
 
-/-- The full statement: whole histories against the association-list dictionary (not proved, see the header). -/
+/-! ### whole histories against the reference dictionary -/
+
+/-- the operations of the statement -/
+inductive C15.HOp
+  | set (k v : Val) | delete (k : Val) | clear
+
+/-- one step on the content of a (mutable) map -/
+def C15.HOp.onTable (T : Table) : C15.HOp → Option Table
+  | .set k v => tSet T k v
+  | .delete k => tDelete T k
+  | .clear => some []
+
+/-- the same step on the reference dictionary -/
+def C15.HOp.onDict (d : Uniflow.Dict.Dict) : C15.HOp → Uniflow.Dict.Dict
+  | .set k v => Uniflow.Dict.set d k v
+  | .delete k => Uniflow.Dict.delete d k
+  | .clear => []
+
+def C15.runTable (T : Table) : List C15.HOp → Option Table
+  | [] => some T
+  | op :: rest => (op.onTable T).bind fun T' => C15.runTable T' rest
+
+def C15.runDict (d : Uniflow.Dict.Dict) : List C15.HOp → Uniflow.Dict.Dict
+  | [] => d
+  | op :: rest => C15.runDict (op.onDict d) rest
+
+/-- what "agrees with the reference dictionary" means for a content `T` and an association list `d`:
+Get/Has never panic and return what `Dict.get` returns; Len is the length; Keys/Values/Pairs list a permutation of `d`;
+Range lists a permutation of `d`. -/
+def C15.Agrees (T : Table) (d : Uniflow.Dict.Dict) : Prop :=
+  (∀ k, tLook T k ≠ .panic ∧ (tLook T k).toOption = Uniflow.Dict.get d k) ∧
+  tLen T = d.length ∧ (tPairs T).Perm d ∧ (tRange T).Perm d
+
+/-- The full statement: every Set/Delete/Clear history from the empty map runs without panic, keeps the table invariant, and the
+resulting content agrees with the history run on the association list `Uniflow.Dict`. -/
 def C15.map_refines_full : Prop :=
-  ∀ ops : List (Bool × Val × Val),   -- (true, k, v) = Set k v ; (false, k, _) = Delete k
-    let run := ops.foldl (fun (s : Option Table × Uniflow.Dict.Dict) o =>
-      match s.1 with
-      | none => (none, s.2)
-      | some t => if o.1 then (tSet t o.2.1 o.2.2, Uniflow.Dict.set s.2 o.2.1 o.2.2)
-                  else (tDelete t o.2.1, Uniflow.Dict.delete s.2 o.2.1)) (some [], [])
-    ∃ t, run.1 = some t ∧ tLen t = run.2.length ∧
-      ∀ k, (match tLook t k with | .hit v => some v | _ => none) = Uniflow.Dict.get run.2 k
+  ∀ ops : List C15.HOp, ∃ T, C15.runTable [] ops = some T ∧ TInv T ∧ C15.Agrees T (C15.runDict [] ops)
+
+theorem C15.agrees_of_rep {T : Table} {d : Uniflow.Dict.Dict} (h : Rep T d) : C15.Agrees T d :=
+  ⟨fun k => rep_look h k, rep_len h, rep_perm h, rep_range h⟩
+
+/-- histories from any content that represents a dictionary -/
+theorem C15.history_refines : ∀ (ops : List C15.HOp) (T : Table) (d : Uniflow.Dict.Dict), Rep T d →
+    ∃ T', C15.runTable T ops = some T' ∧ Rep T' (C15.runDict d ops)
+  | [], T, d, h => ⟨T, rfl, h⟩
+  | op :: rest, T, d, h => by
+    have hstep : ∃ T1, op.onTable T = some T1 ∧ Rep T1 (op.onDict d) := by
+      cases op with
+      | set k v => exact rep_set h k v
+      | delete k => exact rep_delete h k
+      | clear => exact ⟨[], rfl, rep_nil⟩
+    obtain ⟨T1, h1, hr1⟩ := hstep
+    obtain ⟨T', h2, hr2⟩ := C15.history_refines rest T1 _ hr1
+    exact ⟨T', by simp only [C15.runTable, h1, Option.bind_some]; exact h2, hr2⟩
+
+theorem C15.map_refines : C15.map_refines_full := by
+  intro ops
+  obtain ⟨T, h1, h2⟩ := C15.history_refines ops [] [] rep_nil
+  exact ⟨T, h1, h2.1, C15.agrees_of_rep h2⟩
+
+/-- The same from **any handle of the heap model**: in a well-formed heap, take any handle `h` whose content `T` represents a
+dictionary `d` (any content of a well-formed heap represents its own pair list, see `handle_refines_nonvacuous`). Any history
+of Set/Delete/Clear/Mutable/Immutable, each applied to the map returned by the previous one, runs to the end, keeps the heap
+well formed, and the content of the last map agrees with `Dict.run` of the same history (which keeps the stored value when an
+immutable map is asked to store an Equal one, as `immutableMap.Set` does). -/
+theorem C15.handle_refines (hp : Heap) (hi : HeapInv hp) (h : Handle) (T : Table) (d : Uniflow.Dict.Dict)
+    (hc : hp.content h = some T) (hr : Rep T d) (ops : List Op) :
+    ∃ hp' h' T', runChain hp h ops = some (hp', h') ∧ HeapInv hp' ∧ hp'.content h' = some T' ∧
+      h'.isMut = (Uniflow.Dict.run h.isMut d (ops.map toDOp)).1 ∧
+      C15.Agrees T' (Uniflow.Dict.run h.isMut d (ops.map toDOp)).2 := by
+  obtain ⟨hp', h', T', h1, h2, h3, h4, h5⟩ := chain_refines ops hi hc hr
+  exact ⟨hp', h', T', h1, h2, h3, h4, C15.agrees_of_rep h5⟩
+
+/-- the hypothesis `Rep T d` of `handle_refines` is always available: a well-formed content represents its own pair list -/
+theorem C15.handle_refines_nonvacuous (T : Table) (hi : TInv T) : Rep T (tPairs T) :=
+  ⟨hi, pairs_nodup hi, fun _ => mem_tPairs.symm⟩
+
+/-! ### snapshots -/
 
 /-- `snapshot_stable`: run any program on the handles derived from the immutable map `imm t` (Set, Delete, Clear, Mutable,
-Immutable and everything those return, transitively). Every table that existed before – the snapshot's own in
-particular – is unchanged, whatever the rest of the heap looks like (other maps, mutable maps sharing tables, …). -/
-theorem C15.snapshot_stable (hp : Heap) (t : Nat) (prog : List (Nat × Op)) :
-    ∀ a, a < hp.tables.length → (runDerived hp [.imm t] prog).1.tables[a]? = hp.tables[a]? := by
+Immutable and everything those return, transitively). The snapshot reads exactly the content it read before, whatever the
+rest of the heap looks like (other maps, mutable maps sharing its Go map or its bucket arrays, …). -/
+theorem C15.snapshot_stable (hp : Heap) (t : Nat) (T : Table) (hc : hp.content (.imm t) = some T)
+    (prog : List (Nat × Op)) : (runDerived hp [.imm t] prog).1.content (.imm t) = some T := by
   have h := runDerived_frame (hp0 := hp) prog hp [.imm t] (Frame.refl hp) (by
     intro h hh; simp only [List.mem_singleton] at hh; subst hh; trivial)
-  exact h.1.old
+  exact h.1.content_imm hc
 
-/-- … so the snapshot reads the same table as before. -/
-theorem C15.snapshot_reads_same (hp : Heap) (t : Nat) (ht : t < hp.tables.length) (prog : List (Nat × Op)) :
-    (runDerived hp [.imm t] prog).1.tableOf (.imm t) = hp.tableOf (.imm t) := by
-  have h := runDerived_frame (hp0 := hp) prog hp [.imm t] (Frame.refl hp) (by
-    intro h hh; simp only [List.mem_singleton] at hh; subst hh; trivial)
-  have hlen := h.1.tlen
-  have hold := h.1.old t ht
-  unfold Heap.tableOf Heap.addrOf
-  have h1 : t < (runDerived hp [.imm t] prog).1.tables.length := by omega
-  simp only [h1, ht, ite_true, Option.bind_some]
-  exact hold
-
-/-- The same for any set of starting handles that cannot write an old table: immutable maps, and mutable maps created later. -/
+/-- The same for any set of starting handles that cannot write an old Go map (immutable maps, and mutable maps created later),
+and for every immutable handle `s` that had a content: old Go maps and old bucket arrays are never written. -/
 theorem C15.snapshot_stable_general (hp0 hp : Heap) (D : List Handle) (prog : List (Nat × Op))
-    (f : Frame hp0 hp) (hD : ∀ h ∈ D, Derivable hp0 h) :
-    ∀ a, a < hp0.tables.length → (runDerived hp D prog).1.tables[a]? = hp0.tables[a]? :=
-  (runDerived_frame prog hp D f hD).1.old
+    (f : Frame hp0 hp) (hD : ∀ h ∈ D, Derivable hp0 h) (s : Nat) (T : Table) (hc : hp0.content (.imm s) = some T) :
+    (runDerived hp D prog).1.content (.imm s) = some T :=
+  (runDerived_frame prog hp D f hD).1.content_imm hc
 
-/-- non-vacuity: a snapshot of a one-entry map, a program that derives a mutable copy, overwrites the key there, clears it,
-and also sets the key on the snapshot itself – the program really runs (5 derived handles) and table 0 is intact. -/
-theorem C15.snapshot_stable_nonvacuous :
-    ((runDerived { tables := [[(hash (Val.str [97]), [(Val.str [97], Val.int .native 1)])]], objs := [] } [.imm 0]
-      [(0, .mutable), (1, .set (.str [97]) (.int .native 2)), (1, .clear),
-       (0, .set (.str [97]) (.int .native 3)), (0, .delete (.str [97]))]).2.length = 6) ∧
-    ((runDerived { tables := [[(hash (Val.str [97]), [(Val.str [97], Val.int .native 1)])]], objs := [] } [.imm 0]
-      [(0, .mutable), (1, .set (.str [97]) (.int .native 2)), (1, .clear),
-       (0, .set (.str [97]) (.int .native 3)), (0, .delete (.str [97]))]).1.tables.length = 5) := by
+/-- the witness program of `pinned_set_changes_snapshot`: `s := NewMap().Set("a", 1)`, `m := s.Mutable()`, `m.Set("a", 2)`
+with the fixed or the pinned `mutableMap.Set`; answers (does `s` still read 1 under "a"?, does `m` read 2 under "a"?) -/
+def C15.witness (pinned : Bool) : Option (Bool × Bool) :=
+  match (({} : Heap).newImm.1).set ({} : Heap).newImm.2 (.str [97]) (.int .native 1) with
+  | .ok hp2 s _ =>
+    match hp2.mutable s with
+    | .ok hp3 m _ =>
+      match (if pinned then hp3.setPinned m (.str [97]) (.int .native 2) else hp3.set m (.str [97]) (.int .native 2)) with
+      | .ok hp4 m' _ => some (hp4.reads s (.str [97]) (.int .native 1), hp4.reads m' (.str [97]) (.int .native 2))
+      | _ => none
+    | _ => none
+  | _ => none
+
+/-- non-vacuity of `snapshot_stable` and the defect it excludes: with the repaired `Set` the snapshot keeps reading 1 and the
+derived map reads 2; with the **pinned** `Set` (write into the shared bucket array, install a copy of the old content)
+the snapshot reads 2 and the derived map still reads 1. -/
+theorem C15.pinned_set_changes_snapshot :
+    C15.witness false = some (true, true) ∧ C15.witness true = some (false, false) := by
+  decide
+
+/-- … and at the level of the rule: on a bucket heap with one shared array the pinned rule overwrites that array in place. -/
+theorem C15.pinned_rule_writes_shared_bucket :
+    (aSetPinned [[(Val.str [97], Val.int .native 1)]] [(hash (Val.str [97]), 0)] (.str [97]) (.int .native 2)).map
+        (fun r => r.1.length) = some 2 ∧
+    (aSet [[(Val.str [97], Val.int .native 1)]] [(hash (Val.str [97]), 0)] (.str [97]) (.int .native 2)).map
+        (fun r => (r.1.length, (r.1[0]?).map (fun b => b.map (fun p => equal p.2 (.int .native 1))))) = some (2, some [true]) ∧
+    (aSetPinned [[(Val.str [97], Val.int .native 1)]] [(hash (Val.str [97]), 0)] (.str [97]) (.int .native 2)).map
+        (fun r => (r.1[0]?).map (fun b => b.map (fun p => equal p.2 (.int .native 1)))) = some (some [false]) := by
   decide
